@@ -161,7 +161,14 @@ def check(ctx, run):
     cl = prog.lookup_method(W.HEDGER, "compute_loss")
     lv = single(interp.explore(cl, [W.option()], dict(n_paths=W.integer("n_paths"), n_times=1), self_obj=h2))["value"]
     from ..termination import simp
-    ok = str(simp(pv)) == str(simp(lv))  # symbolic objects differ by identity between the two runs; the printed term is canonical
+    def unit(t):
+        """x - 0.0, x + 0.0 -> x (the default target), bottom-up"""
+        if isinstance(t, Op):
+            t = Op(t.op, tuple(unit(x) if isinstance(x, (Op, Sym)) else x for x in t.args), tuple((k_, unit(v_) if isinstance(v_, (Op, Sym)) else v_) for k_, v_ in t.kw))
+            if t.op in ("sub", "add") and len(t.args) == 2 and t.args[1] in (0, 0.0) and not isinstance(t.args[1], bool):
+                return t.args[0]
+        return t
+    ok = str(unit(simp(pv))) == str(unit(simp(lv)))  # symbolic objects differ by identity between the two runs; the printed term is canonical
     run.oblige("C06.R5", "EntropicRiskMeasure: price == loss (same term)", ok, "")
     if not ok:
         run.fail(Finding("C06.R5", price.qualname, "price vs compute_loss with EntropicRiskMeasure", "for the entropic risk measure the quoted price must equal the loss", file=str(prog.modules[price.module].path), line=price.node.lineno))
@@ -314,6 +321,9 @@ def check(ctx, run):  # noqa: F811
     _check_before_target(ctx, run)
     target_rule(ctx, run)
     bisect_dependency(ctx, run)
+    # R6: the certainty equivalent is computed at the precision of the sample (scalar targets and levels are not rounded to float32 on the way)
+    from .c05 import precision_rule
+    precision_rule(ctx, run, rule="C06.R6", methods=("cash",))
 
 
 def bisect_dependency(ctx, run):
